@@ -7,7 +7,7 @@
      E    = INT | (id X) | (this F) | (add E E) | (mul E E) | (lt E E) | (call M E) | (thiscall M E)
    Output: FIELDS=name:emb:typehex:taghex,...  FUNCS=name/recvname/recvtype,...
            CLS=<hex of the class-form method source>  EXPL=<hex of the explicit-form method source for type NAME^"X">
-           RUNC=<outcome>  RUNX=<outcome>     outcome = V:rets|trace|fields|globals  or  U  or  F *)
+           RUNC=<outcome>  RUNX=<outcome>  RUND=<outcome of the environment-based evaluator>     outcome = V:rets|trace|fields|globals  or  U  or  F *)
 open C11model
 
 let rec pos_of_int n = if n = 1 then XH else if n land 1 = 0 then XO (pos_of_int (n lsr 1)) else XI (pos_of_int (n lsr 1))
@@ -150,14 +150,14 @@ let () =
        let gl = List.map (fun g -> str_of (atom g)) globals in
        let cs = List.map (function L [m; v] -> (str_of (atom m), z_of_int (int_of_string (atom v))) | _ -> failwith "call") calls in
        let fuel = nat_of_int 2000 in
-       Printf.printf "FIELDS=%s FUNCS=%s CLS=%s EXPL=%s RUNC=%s RUNX=%s"
+       Printf.printf "FIELDS=%s FUNCS=%s CLS=%s EXPL=%s RUNC=%s RUNX=%s RUND=%s"
          (String.concat "," (List.map (fun f -> Printf.sprintf "%s:%d:%s:%s" (to_s f.fname) (if f.fembedded then 1 else 0)
                                                  (hex (ptype f.ftype)) (match f.ftag with Some t -> hex (to_s t) | None -> "-")) fl))
          (String.concat "," (List.map (fun g -> match g.grecv with
                                                 | Some ((rn, rt), _) -> Printf.sprintf "%s/%s/%s" (to_s g.gname) (to_s rn) (to_s rt)
                                                 | None -> Printf.sprintf "%s//" (to_s g.gname)) fs))
          (hex (class_src c.cmethods)) (hex (explicit_src (name ^ "X") (desugar_class c).cmethods))
-         (outcome (run_class fuel c gl cs)) (outcome (run_explicit fuel c gl cs))
+         (outcome (run_class fuel c gl cs)) (outcome (run_explicit fuel c gl cs)) (outcome (run_class_dyn fuel c gl cs))
      | _ -> print_string "BADINPUT"
     with Failure m -> print_string ("BADINPUT " ^ m));
     print_newline ()
